@@ -2633,12 +2633,17 @@ Qed.
 Definition nwb (s : st) : bool := cnt0 s + (now s - tb s) <? 4294967296.
 Definition nwrunb (e : bool) (c : cfg) (evs : list ev) : bool :=
   forallb (fun k => nwb (run_from e c (start e c) (firstn k evs))) (seq 0 (S (length evs))).
+Lemma firstn_min {A} k (l : list A) : firstn k l = firstn (Nat.min k (length l)) l.
+Proof.
+  destruct (Nat.le_ge_cases k (length l)); [rewrite Nat.min_l by lia; reflexivity|].
+  rewrite Nat.min_r by lia. rewrite firstn_all. apply firstn_all2. lia.
+Qed.
 Lemma nwrunb_ok e c evs : nwrunb e c evs = true -> NWrun e c (start e c) evs.
 Proof.
-  intros H k. unfold nwrunb in H. rewrite forallb_forall in H.
-  assert (K : forall j, (j <= length evs)%nat -> NW (run_from e c (start e c) (firstn j evs))).
-  { intros j Hj. specialize (H j). unfold nwb in H. unfold NW. apply Z.ltb_lt. apply H. apply in_seq. lia. }
-  destruct (Nat.le_ge_cases k (length evs)); [apply K; auto|]. rewrite firstn_all2 by lia. rewrite <- (firstn_all evs). apply K. lia.
+  intros H k. unfold nwrunb in H. pose proof (proj1 (forallb_forall _ _) H) as H'. clear H.
+  rewrite (firstn_min k evs). set (j := Nat.min k (length evs)).
+  assert (Hj : In j (seq 0 (S (length evs)))) by (apply in_seq; unfold j; lia).
+  specialize (H' j Hj). unfold nwb in H'. apply Z.ltb_lt in H'. exact H'.
 Qed.
 Definition slackb (S : Z) (l : list out) : bool :=
   forallb (fun o => match o with GEvalStart due t => t <=? due + S | _ => true end) l.
